@@ -114,8 +114,13 @@ func forgetFragment() fragmentationContext {
 }
 
 func (c *Conversation) receiveFragment(beforeCtx fragmentationContext, data ValidMessage) (fragmentationContext, error) {
+	previousTheirInstanceTag := c.theirInstanceTag
 	fragBody, ignore, ok1 := c.parseFragmentPrefix(data)
 	resultData, ix, l, ok2 := parseFragment(fragBody)
+	if !ok2 {
+		// the peer's instance tag is learnt only from a well-formed fragment
+		c.theirInstanceTag = previousTheirInstanceTag
+	}
 
 	if ignore {
 		c.messageEvent(MessageEventReceivedMessageForOtherInstance)
